@@ -5,6 +5,7 @@ let () =
   | "c02run" -> C02drv.run_main ()
   | "asmbatch" -> Asmdrv.main ()
   | "asmoracle" -> Asmoracle.main ()
+  | "asmselftest" -> Asmdrv.selftest ()
   | "rtlproc" -> Rtldrv.proc_main ()
   | "xsem" -> Xdrv.xsem_main ()
   | "xisa" -> Xdrv.xisa_main ()
